@@ -121,13 +121,18 @@ class C16:
         exc = ex.params()[2]
         rows = {}
         order = []
+        errno_names = set()      # locals that hold <exception>.errno
+        for n in ctx.own_nodes(ex):
+            if isinstance(n, ast.Assign) and isinstance(n.targets[0], ast.Name) and pat.match("%s.errno" % exc, n.value) is not None:
+                errno_names.add(n.targets[0].id)
         for n in ctx.own_nodes(ex):
             if isinstance(n, ast.If):
                 m = pat.match("isinstance(%s, $C)" % exc, n.test)
                 key = ast.unparse(m["C"]) if m else None
                 t_ = n.test
                 if key is None and isinstance(t_, ast.Compare) and len(t_.ops) == 1 and isinstance(t_.ops[0], ast.Eq) \
-                        and pat.match("%s.errno" % exc, t_.left) is not None and isinstance(t_.comparators[0], ast.Attribute):
+                        and (pat.match("%s.errno" % exc, t_.left) is not None or (isinstance(t_.left, ast.Name) and t_.left.id in errno_names)) \
+                        and isinstance(t_.comparators[0], ast.Attribute):
                     key = t_.comparators[0].attr
                 if key is None:
                     continue
